@@ -159,6 +159,19 @@ func Reencode(r *Rng, src []byte) ([]byte, string) {
 	}
 	var b []byte
 	desc := ""
+	if r.Chance(20) {
+		// a first line that other tools understand: with a line feed, a lone CR, or nothing after it
+		line := r.Pick([]string{"#!/usr/bin/env tsh", "#!", "#!/bin/sh -e", "#", "#! tsh"})
+		switch r.Intn(4) {
+		case 0:
+			return []byte(line), "enc:shebang-only"
+		case 1:
+			return append([]byte(line+"\r"), src...), "enc:shebang-cr"
+		case 2:
+			return []byte(line + " " + strings.ReplaceAll(string(src), "\n", " ")), "enc:shebang-no-newline"
+		}
+		return append([]byte(line+"\n"), src...), "enc:shebang"
+	}
 	switch r.Intn(7) {
 	case 0:
 		b, desc = append([]byte("\xef\xbb\xbf"), src...), "enc:utf8-bom"
